@@ -103,7 +103,7 @@ def universe(tier, seed, shard, nshards):
                 [None, 1, (0, 1, 0, 0), (0, 0, 0, 1), (1, 0, 0, 0), (0, 0, 1, 0), (0, r, 0, 0), (0, 0, 0, c), (1, 1, 1, 1)]
             for w in wins:
                 for pen in (None, 0.5):
-                    for ms in (None, 1.2):
+                    for ms in (None, univ.max_step2(seed)):
                         for inner in ('sq', 'eu'):
                             for psi in psis:
                                 yield 'U1-values', {'s1': s1, 's2': s2, 'window': w, 'penalty': pen, 'psi': psi,
@@ -211,7 +211,7 @@ def run(ctx):
         PROP, ctx.tier, ctx.seed, acc,
         rule='every case of the stated universe is generated once (product enumeration, no sampling); a case is non-trivial when '
              'window/psi/penalty/max_step/max_length_diff change the reference optimum w.r.t. unconstrained DTW or make it infinite',
-        bounds={'alphabet': list(A), 'U1': 'all series pairs with lengths 1..%d x window{None,1,2%s} x penalty{None,.5} x max_step{None,1.2} x inner{sq,eu} x psi{None,1,2,{0,1,len}^4}' % (4 if ctx.thorough else 3, ',3' if ctx.thorough else ''),
+        bounds={'alphabet': list(A), 'U1': 'all series pairs with lengths 1..%d x window{None,1,2%s} x penalty{None,.5} x max_step{None, 2|a| (separates squared from unsquared comparisons)} x inner{sq,eu} x psi{None,1,2,{0,1,len}^4}' % (4 if ctx.thorough else 3, ',3' if ctx.thorough else ''),
                 'U2': 'lengths 1..3 x max_length_diff{0,1}; user inner-distance object and penalty{2,.25}, max_step 3, window 3 crosses; list/tuple/array.array containers',
                 'U3': 'all shapes up to %dx%d x window None,1..max+1 x psi{None,1,2,%s^4} x catalogue pairs x penalty/max_step on/off' % ((7, 7, '{0,1,2,len}') if ctx.thorough else (5, 5, '{0,1,len}')),
                 'U4': 'long thin bands: every shape up to 14x14 with max >= 7, windows 1..4, 11 psi forms, 3 value pairs',
